@@ -52,7 +52,7 @@ Step(e) ==
      /\ m' = <<>> /\ hd' = [nu |-> 0, R |-> <<>>, M |-> <<>>] /\ synced' = TRUE /\ UNCHANGED <<bad, cnt>>
   ELSE IF ~synced THEN
      /\ UNCHANGED <<m, hd, bad, synced>> /\ cnt' = [cnt EXCEPT !.skipped = @ + 1]
-  ELSE IF IsHdr(e) /\ ~HeaderOk(e) THEN
+  ELSE IF IsHdr(e) /\ e.out = "ok" /\ ~HeaderOk(e) THEN
      /\ bad' = IF NBad("header") < MaxBad THEN Append(bad, BadRec(e, "header", <<>>)) ELSE bad
      /\ synced' = FALSE /\ UNCHANGED <<m, hd, cnt>>
   ELSE
